@@ -10,7 +10,7 @@
 //	go func() {...}()           ->  sync.Go(func() {...})
 //
 // (function value and arguments are evaluated at the spawn site, as the language requires).
-// Output: <seams>/src/<path relative to /repo> and <seams>/sync.json = {"Replace": {orig: copy}},
+// Output: <seams>/sync/src/<path relative to /repo> (a directory private to this seam) and <seams>/sync.json = {"Replace": {orig: copy}},
 // where <seams> = $VERIF_ROOT/.work/seams, or .work/seams.$VERIF_BIN_SUFFIX for a detection run.
 // Idempotent: files are only rewritten when their content changes. /repo is never written.
 package main
@@ -288,17 +288,17 @@ func main() {
 			if out == nil {
 				continue
 			}
-			dst := filepath.Join(seams, "src", rel)
+			dst := filepath.Join(seams, "sync", "src", rel)
 			writeIfChanged(dst, out)
 			replace[orig] = dst
 		}
 	}
 	// drop stale copies of earlier runs
-	_ = filepath.Walk(filepath.Join(seams, "src"), func(p string, info os.FileInfo, err error) error {
+	_ = filepath.Walk(filepath.Join(seams, "sync", "src"), func(p string, info os.FileInfo, err error) error {
 		if err != nil || info.IsDir() {
 			return nil
 		}
-		rel, _ := filepath.Rel(filepath.Join(seams, "src"), p)
+		rel, _ := filepath.Rel(filepath.Join(seams, "sync", "src"), p)
 		if replace[filepath.Join(repoRoot, rel)] != p {
 			_ = os.Remove(p)
 		}
